@@ -6,7 +6,8 @@ From Coq Require Import ZArith QArith List Bool String.
 From KV Require Import Base.Sx Base.Str Gen.Generated Model.Prune Model.LostMap Proofs.C06P
                        Model.TimeFreq Proofs.TimeFreqP Model.TimeFreqPre Proofs.TimeFreqPreP
                        Model.TimeFreqVfw Proofs.TimeFreqVfwP Model.TimeFreqX Proofs.TimeFreqXP
-                       Model.TimeFreqCbf Proofs.TimeFreqCbfP Proofs.TimeFreqC07P.
+                       Model.TimeFreqCbf Proofs.TimeFreqCbfP Proofs.TimeFreqC07P
+                       Model.Interp Model.SensorCache Model.TimeFreqY Proofs.TimeFreqYP.
 From KV Require Model.Chunks.
 Import ListNotations.
 Open Scope Q_scope.
@@ -458,3 +459,145 @@ Theorem C17_slice_model_is_C07s : forall n a b st,
   (snd (Chunks.norm_slice n (a, b)) - fst (Chunks.norm_slice n (a, b)))%Z = take_len (py_indices n (PSlice a b st)).
 Proof. exact py_indices_is_c07_norm_slice. Qed.
 Print Assumptions C17_slice_model_is_C07s.
+
+(* ======================================================================================================================
+   Third round: the dates of the rule read as UTC, the decision on the start of the capture for every time_offset, numeric
+   sensors over C12's extraction model, a list of files with one preselection.  Proofs in Proofs/TimeFreqYP.v. *)
+
+(* ---- clause 1: "before the documented fix dates" = before UTC midnight of the date, whatever the zone of the process ---- *)
+(* the date texts of the source, read as calendar.timegm(time.strptime(text, '%Y-%m-%d')) reads them (the only reading the
+   translator accepts), are the numbers the rule is evaluated with, and those are the documented UTC midnights *)
+Theorem C17_fix_dates_utc :
+  map utc_midnight fix_date_texts = map Some fix_dates /\ fix_date_format = "%Y-%m-%d"%string
+  /\ map utc_midnight ["2019-02-11"; "2019-03-03"; "2019-03-15"]%string = [Some 1549843200; Some 1551571200; Some 1552608000]%Z.
+Proof. exact fix_dates_utc. Qed.
+Print Assumptions C17_fix_dates_utc.
+
+(* the day count behind utc_midnight is the calendar's: 0 on 1970-01-01 and exactly one more from each day to the next,
+   for every valid date from 1970-01-01 to 2099-12-31 (bound in the statement; leap years, month and year ends included) *)
+Theorem C17_calendar_day_count : forall y m d, (1970 <= y < 2100)%Z -> valid_date y m d = true ->
+  days_from_civil 1970 1 1 = 0%Z /\
+  (let '(y', m', d') := next_day (y, m, d) in days_from_civil y' m' d' = days_from_civil y m d + 1)%Z.
+Proof. exact calendar_steps. Qed.
+Print Assumptions C17_calendar_day_count.
+
+(* C17-F2 (repaired): read through katpoint.Timestamp(<text>) - mktime of the fields minus time.timezone - the dates are UTC
+   only in a zone that has today the standard offset it had in 2019 ... *)
+Theorem C17_fix_rule_zone_same_offset : forall w c cmc2 cbf4k,
+  legacy_rule w w c cmc2 cbf4k = utc_rule c cmc2 cbf4k /\
+  forall wn s, legacy_midnight w wn s = option_map (fun u => u + (w - wn))%Z (utc_midnight s).
+Proof. intros. split; [apply legacy_rule_same_offset|intros; apply legacy_midnight_shift]. Qed.
+Print Assumptions C17_fix_rule_zone_same_offset.
+
+(* ... and wrong otherwise (Africa/Juba, a CMC1 capture started 2019-03-14 23:30 UTC), while the rule of the repaired code
+   is the documented table *)
+Theorem C17_fix_rule_zone_refuted_before_fix :
+  exists wt wn c cmc2 cbf4k,
+    legacy_rule wt wn c cmc2 cbf4k <> Qltb c (inject_Z (doc_fix_date cmc2 cbf4k))
+    /\ utc_rule c cmc2 cbf4k = Qltb c (inject_Z (doc_fix_date cmc2 cbf4k)).
+Proof. exact fix_rule_zone_refuted_before_fix. Qed.
+Print Assumptions C17_fix_rule_zone_refuted_before_fix.
+
+(* the correction (what every timestamp of the data set loses) is decided on sync_time + first_timestamp + time_offset:
+   the START OF THE CAPTURE as shifted by the time_offset argument, for every time_offset, and for every preselected first
+   dump a the same as for the whole data set; it is one CBF dump or nothing, never anything else *)
+Theorem C17_fix_against_capture_start : forall tm a,
+  let start := t_sync tm + t_first tm + t_off tm in
+  let date := inject_Z (doc_fix_date (t_cmc2 tm) (t_cbf4k tm)) in
+  (start < date -> model_correction tm a == match t_cbf tm with Some c => c | None => 0 end) /\
+  (date <= start -> model_correction tm a == 0) /\
+  model_correction tm a == model_correction tm 0 /\
+  (forall i, model_timestamp tm a i == raw_stamp tm (a + i) - model_correction tm a).
+Proof. exact correction_cases. Qed.
+Print Assumptions C17_fix_against_capture_start.
+
+(* ---- clause 4: numeric sensor values, over the extraction model of C12 (Model/SensorCache.extract_sensor, unchanged) ---- *)
+(* the getter of a v4 sensor holds the WHOLE history (get_range from gen_sensor_range_start = 0), preselection or not;
+   a getter cut to the preselected range would interpolate differently *)
+Theorem C17_sensor_history_whole_capture :
+  gen_sensor_range_start = 0%Z /\
+  gen_v4_sensor_cache_args = ["source.metadata.sensors"; "source.timestamps"; "self.dump_period"; "self._time_keep"]%string /\
+  (forall dt st h, (forall s, In s h -> 0 <= s_t s) -> v4_getter dt st h = mkG dt st h) /\
+  v4_sensor demo_tm 1 2 (v4_getter_cut DFloat false (model_timestamp demo_tm 1 0) demo_hist) p_empty
+    <> v4_sensor demo_tm 1 2 (v4_getter DFloat false demo_hist) p_empty.
+Proof.
+  split; [reflexivity|split; [reflexivity|split; [exact getter_whole_history|exact (proj2 sensor_history_cut_differs)]]].
+Qed.
+Print Assumptions C17_sensor_history_whole_capture.
+
+(* ANY sensor (history, dtype, status flag, sensor properties: time offset, categorical, initial value) extracted onto the
+   dumps of a data set opened with preselect dumps = a:a+n gives exactly what select(dumps = a:a+n) gives on the whole data
+   set: numeric values cut to a..a+n, categorical / failing extractions unchanged *)
+Theorem C17_preselect_sensor_interp : forall tm T a n g p, (a + n <= T)%nat ->
+  v4_sensor tm (Z.of_nat a) (Z.of_nat n) g p = xres_cut a n (v4_sensor tm 0 (Z.of_nat T) g p).
+Proof. exact preselect_sensor. Qed.
+Print Assumptions C17_preselect_sensor_interp.
+
+(* ... and value i of an interpolated sensor is the piecewise-linear interpolation of the whole cleaned history at the
+   documented timestamp of dump a + i of the capture (time_offset and the CBF correction included) *)
+Theorem C17_preselect_sensor_value : forall tm a n g p, usable g p <> [] -> decide_cat p (g_dtype g) = false ->
+  (g_dtype g = DFloat \/ g_dtype g = DInt) ->
+  exists vals, v4_sensor tm a (Z.of_nat n) g p = XVals vals /\ List.length vals = n /\
+    forall i, (i < n)%nat ->
+      nth i vals None = Some (interp_d (nodes_of (usable g p)) (model_timestamp tm a (Z.of_nat i)))
+      /\ model_timestamp tm a (Z.of_nat i) == spec_timestamp tm (a + Z.of_nat i).
+Proof. exact preselect_sensor_value. Qed.
+Print Assumptions C17_preselect_sensor_value.
+
+(* ---- clause 4 / 6: katdal.open([file, ...], preselect=...) ---- *)
+(* accepted: only keys of open_concat_keys, and EVERY file opened with the same preselection, in file order, keeping all
+   of its dumps; conversely files that each accept it make the list accepted *)
+Theorem C17_open_list_every_file : forall srcs po ds,
+  (open_list srcs po = LOk ds ->
+     forallb (key_ok open_concat_keys) (the_dict po) = true /\
+     Forall2 (fun s d => open_v4 s po = ODs d /\ o_a d = 0%Z /\ o_n d = x_T s /\ (0 < x_T s)%Z) srcs ds) /\
+  (forallb (key_ok open_concat_keys) (the_dict po) = true ->
+     Forall2 (fun s d => open_v4 s po = ODs d) srcs ds -> open_list srcs po = LOk ds).
+Proof.
+  intros srcs po ds. split; [apply open_list_every_file|].
+  intros F A. unfold open_list. rewrite F. apply open_each_ok_conv. exact A.
+Qed.
+Print Assumptions C17_open_list_every_file.
+
+(* refused: a key other than channels -> IndexError (4) before any file is opened, whatever the files; otherwise the code
+   of the FIRST file that refuses, all files before it having opened; one file in a list = that file *)
+Theorem C17_open_list_refusals : forall srcs po,
+  (forallb (key_ok open_concat_keys) (the_dict po) = false -> open_list srcs po = LErr 4) /\
+  (forallb (key_ok open_concat_keys) (the_dict po) = true -> forall c, open_list srcs po = LErr c ->
+     exists pre s post ds, srcs = (pre ++ s :: post)%list /\ open_each pre po = LOk ds /\ open_v4 s po = OErr c) /\
+  (forallb (key_ok open_concat_keys) (the_dict po) = true -> forall s,
+     open_list [s] po = match open_v4 s po with OErr c => LErr c | ODs d => LOk [d] end).
+Proof.
+  intros srcs po. split; [apply open_list_refused_keys|split].
+  - intros F c H. unfold open_list in H. rewrite F in H. apply open_each_err. exact H.
+  - intros F s. apply open_list_single. exact F.
+Qed.
+Print Assumptions C17_open_list_refusals.
+
+(* files that agree on n_chans / center_freq / bandwidth / stored channels get the SAME spectral window (and fallback
+   verdict) from one preselection, whatever their timing and number of dumps *)
+Theorem C17_open_list_same_window : forall s1 s2 po d1 d2,
+  x_N s1 = x_N s2 -> x_centre s1 = x_centre s2 -> x_bw s1 = x_bw s2 -> x_F s1 = x_F s2 ->
+  open_v4 s1 po = ODs d1 -> open_v4 s2 po = ODs d2 ->
+  o_spw d1 = o_spw d2 /\ o_fallback d1 = o_fallback d2.
+Proof. exact open_same_window. Qed.
+Print Assumptions C17_open_list_same_window.
+
+(* non-vacuity of the third round: a leap day and a year end step by one; an impossible date is refused; the Juba reading
+   is an hour early; a preselected sensor with distinct values; a list of two files accepted with channels 1:3 and refused
+   with dumps *)
+Definition y_src (T : Z) : v4src := mkSrc demo_tm T 4 (inject_Z 1284) 16 (Some 4%Z).
+Example nonvacuous_y :
+  utc_midnight "2020-02-29" = Some 1582934400%Z /\ utc_midnight "2019-02-29" = None /\ utc_midnight "2019-3-15" = None /\
+  next_day (2019, 12, 31)%Z = (2020, 1, 1)%Z /\ next_day (2020, 2, 28)%Z = (2020, 2, 29)%Z /\
+  legacy_midnight (-10800) (-7200) "2019-03-15" = Some (1552608000 - 3600)%Z /\
+  v4_sensor demo_tm 1 2 (v4_getter DFloat false demo_hist) p_empty = XVals [Some (4 # 4); Some (8 # 4)] /\
+  (exists d1 d2, open_list [y_src 3; y_src 5] (Some [("channels", PSlice (Some 1%Z) (Some 3%Z) None)]) = LOk [d1; d2]
+                 /\ o_n d1 = 3%Z /\ o_n d2 = 5%Z /\ s_n (o_spw d1) = 2%Z /\ o_spw d1 = o_spw d2) /\
+  open_list [y_src 3; y_src 5] (Some [("dumps", PSlice (Some 1%Z) (Some 3%Z) None)]) = LErr 4 /\
+  open_list [y_src 3; y_src 0] (Some [("channels", PSlice (Some 1%Z) (Some 3%Z) None)]) = LErr 5.
+Proof.
+  repeat (split; [vm_compute; reflexivity|]).
+  split; [|split; vm_compute; reflexivity].
+  eexists. eexists. split; [vm_compute; reflexivity|]. repeat split.
+Qed.
